@@ -35,6 +35,7 @@ type fakeRelay struct {
 	// fault decides what happens to the n-th message sent to a stream:
 	// "deliver", "drop", "senderr" (Send fails, message lost), "recverr" (the reader's Recv fails once)
 	fault                   func(stream string, n int) string
+	faultMsg                func(stream string, msg []byte) string // the same decision by content (consulted after fault)
 	counts                  map[string]int
 	recvErr                 map[string]int // pending injected receive errors per stream
 	newBox                  int
@@ -47,6 +48,7 @@ type fakeRelay struct {
 	wsRecvDials             int           // WebSocket receive sockets dialled
 	grpcFinReceived         int           // gRPC face: FIN packets that reached the SendStream handler
 	grpcFinForwarded        int           // ... and that it passed on to the mailbox
+	grpcOccupied            int           // gRPC face: streams refused because the mailbox already had a writer / reader
 }
 
 func (r *fakeRelay) setFailClose(v bool) {
@@ -138,6 +140,9 @@ func (s *relaySend) Send(b *hashmailrpc.CipherBox) error {
 	act := "deliver"
 	if r.fault != nil {
 		act = r.fault(id, n)
+	}
+	if r.faultMsg != nil && act == "deliver" {
+		act = r.faultMsg(id, msg)
 	}
 	if act == "recverr" {
 		r.recvErr[id]++
